@@ -434,30 +434,34 @@ func C16(c *vlib.Ctx) {
 			denied++
 			// which hop was denied = the one after the last call
 			hi := len(calls)
-			if hi < len(abs) && abs[hi] != nil {
-				ips, _ := ipsOf(abs[hi])
+			deniedURL := c16NextHop(tr, calls)
+			if hi == 0 {
+				deniedURL = abs[0]
+			}
+			if deniedURL != nil {
+				ips, _ := ipsOf(deniedURL)
 				if !needIPs {
 					ips = nil
 				}
-				_, why := evalEgress(pol, abs[hi], ips)
+				_, why := evalEgress(pol, deniedURL, ips)
 				if why == "" {
 					why = "stricter_than_statement"
 				}
 				c.Distinct("nontrivial", fmt.Sprintf("denied:%s:%s", hopClass(hi), why))
 			}
-		} else if hi := len(calls); pol.redirects && hi >= 1 && hi < 10 && hi < len(abs) && abs[hi] != nil && tr.next[calls[hi-1]] != "" {
+		} else if hi, nextHop := len(calls), c16NextHop(tr, calls); pol.redirects && hi >= 1 && hi < 10 && nextHop != nil {
 			// the last request was answered with a redirect and no further request
 			// went out: if the evaluator denies that hop, the delivery was denied by
 			// the policy and must be reported as such (the dispatcher dead-letters
 			// ErrPolicyDenied without retry and retries anything else)
-			ips, resolved := ipsOf(abs[hi])
+			ips, resolved := ipsOf(nextHop)
 			if resolved || !needIPs {
 				if !needIPs {
 					ips = nil
 				}
-				if ok, why := evalEgress(pol, abs[hi], ips); !ok {
+				if ok, why := evalEgress(pol, nextHop, ips); !ok {
 					c.Violation(vlib.Signature{"class": "denied_hop_not_reported_as_policy_denied", "clause": why, "hop": hopClass(hi)},
-						fmt.Sprintf("redirect hop %d to %s is denied by the policy (%s) and was not sent, but the deliverer reported %v (status %d) instead of ErrPolicyDenied", hi, abs[hi], why, res2.Err, res2.StatusCode),
+						fmt.Sprintf("redirect hop %d to %s is denied by the policy (%s) and was not sent, but the deliverer reported %v (status %d) instead of ErrPolicyDenied", hi, nextHop, why, res2.Err, res2.StatusCode),
 						map[string]any{"policy": txt, "chain": chain, "calls": calls})
 				}
 			}
@@ -483,6 +487,32 @@ func C16(c *vlib.Ctx) {
 		c.Inconclusive("C16 observed no sent or no denied delivery")
 	}
 	c16Dispatcher(c)
+}
+
+// c16NextHop: the location the last request that reached the transport was
+// redirected to (resolved against that request's URL), nil if it was not
+// redirected. Chains may contain the same URL twice, so positions in the
+// generated chain do not identify the hop.
+func c16NextHop(tr *recTransport, calls []string) *url.URL {
+	if len(calls) == 0 {
+		return nil
+	}
+	last := calls[len(calls)-1]
+	tr.mu.Lock()
+	loc := tr.next[last]
+	tr.mu.Unlock()
+	if loc == "" {
+		return nil
+	}
+	base, err := url.Parse(last)
+	if err != nil {
+		return nil
+	}
+	ref, err := url.Parse(loc)
+	if err != nil {
+		return nil
+	}
+	return base.ResolveReference(ref)
 }
 
 // stricterOK: the implementation additionally refuses addresses that are not
